@@ -7,6 +7,9 @@ CONSTANTS
   NOffer = 3
   NTake = 2
   Kinds = {"take", "poll"}
+  WithWaiters = FALSE
+  OneShot = FALSE
+  LoaderFreeOnly = FALSE
   WithClose = FALSE
   GuardedClose = TRUE
 PROPERTY Live_AllDelivered
